@@ -1066,6 +1066,11 @@ def gen_history(rng, long=False):
             ops.append(['backup', rng.choice([0, 0, 1, 2, rng.randint(0, 10**6)]), rng.random() < 0.35])
         else:
             ops.append(['backup_missing', rng.choice(['nothing.txt', 'm~77.html']), rng.random() < 0.5])
+    if rng.random() < 0.3:
+        # repeated backups of one file: base_1, base_2, base_3 ... must all be new
+        target = rng.choice(pre + [f'{models[0]}.html', 'd_dumped.dat'])
+        at = rng.randint(0, len(ops))
+        ops[at:at] = [['backup_missing', target, False] for _ in range(rng.randint(2, 5))]
     return {'kind': 'history', 'pre': pre, 'ops': ops}
 
 
@@ -1240,8 +1245,9 @@ def check_recycle(ctx, res, case):
     def cb(ans):
         if ans.get('latest') != last[0]:
             res.diverge('Files.recycleChoice (repaired choice) vs the file written last', case, ans.get('latest'), last[0], where=W_RECYCLE if case['n'] > 101 else '')
-        if ans.get('lex') != got[2]:
-            res.diverge('Files.recycleChoiceLex (the code as it is) vs the file the real code loaded', case, ans.get('lex'), got[2])
+        # the real code follows either the model of the code as it is (string order) or the repaired choice
+        if got[2] not in (ans.get('lex'), ans.get('latest')):
+            res.diverge('file loaded by estimate(recycle=True) vs Files.recycleChoiceLex / Files.recycleChoice', case, [ans.get('lex'), ans.get('latest')], got[2])
 
     ctx.batch.add(req, cb)
 
@@ -1367,6 +1373,21 @@ CORPUS = [
 
 
 def run_case(ctx, res, case, table):
+    """one case; an exception escaping from the real code on a generated (valid) case is recorded as a
+    divergence (the model never raises there), so that the run continues and the search looks for a failing input"""
+    try:
+        _run_case(ctx, res, case, table)
+    except core.LeanError:
+        raise
+    except Exception as e:  # noqa: BLE001
+        import traceback
+
+        tb = traceback.extract_tb(e.__traceback__)
+        site = next((f'{Path(f.filename).name}:{f.lineno} {f.name}' for f in reversed(tb) if 'biogeme' in f.filename and 'harness' not in f.filename), '')
+        res.diverge(f'the real code raised {type(e).__name__}: {str(e)[:200]} ({site})', case, 'no exception', f'{type(e).__name__}')
+
+
+def _run_case(ctx, res, case, table):
     k = case['kind']
     if k == 'params':
         check_param_case(ctx, res, case, table)
@@ -1389,6 +1410,8 @@ def run_case(ctx, res, case, table):
         check_validate(ctx, res, case)
     elif k == 'flat':
         check_flat(ctx, res, case)
+    elif k == 'missing_file':
+        check_missing_file(ctx, res)
     else:
         raise ValueError(k)
 
@@ -1454,8 +1477,7 @@ def search(ctx, res, broken):
         except Exception as e:  # noqa: BLE001
             res.notes.append(f'search: case raised {type(e).__name__}: {e}')
         ctx.batch.items.clear()
-        known = [v for v in r2.violations if v.get('where') in (W_LATEX, W_RECYCLE, W_FLAT, W_QUICK)]
-        fresh = [v for v in r2.violations if v not in known]
+        fresh = [v for v in r2.violations if not _is_known(ctx, v)]
         if fresh:
             res.violations.extend(fresh[:1])
             return
@@ -1473,5 +1495,20 @@ def replay(ctx, obj):
         run_case(ctx, r, case, live_table())
     finally:
         ctx.batch.items.clear()
-    out.update({'property_fails': bool(r.violations), 'violations': [{k: v[k] for k in ('what', 'observed', 'expected', 'where')} for v in r.violations[:3]]})
+    fresh = [v for v in r.violations if not _is_known(ctx, v)]
+    out.update({'property_fails': bool(fresh), 'violations': [{k: v[k] for k in ('what', 'observed', 'expected', 'where')} for v in fresh[:3]],
+                'known_findings_also_seen': sorted({_is_known(ctx, v) for v in r.violations if _is_known(ctx, v)})})
     return out
+
+
+def _is_known(ctx, v):
+    """id of the listed known finding this violation is an instance of (same call site and matcher), else None"""
+    for f in getattr(ctx, 'findings', []) or []:
+        if f.get('kind') != 'known' or f.get('where') != v.get('where'):
+            continue
+        pred = MATCHERS.get(f.get('match', ''))
+        if f.get('match') and pred is None:
+            continue
+        if pred is None or pred(v.get('case')):
+            return f['id']
+    return None
